@@ -50,6 +50,55 @@ def _verify_one(q):
         return {"qname": q, "status": "error", "reason": "%s\n%s" % (e, traceback.format_exc()), "obligations": [], "paths": 0, "trivial": 0, "inlined": [], "dropped": [], "cover": None, "seconds": 0, "obl_names": []}
 
 
+def _child(q, path):
+    r = _verify_one(q)
+    with open(path, "w") as f:
+        json.dump(r, f, default=str)
+    os._exit(0)
+
+
+def run_functions(fns, jobs, deadline_s):
+    """One forked, non-daemonic process per function (each may fork its own discharge pool); results
+    come back through files; a function that exceeds its deadline is killed and reported undecided
+    (never a verdict)."""
+    import tempfile, signal
+
+    ctx = mp.get_context("fork")
+    tmpd = tempfile.mkdtemp(prefix="pyvc_")
+    pending = list(enumerate(fns))
+    running = {}
+    out = {}
+    while pending or running:
+        while pending and len(running) < jobs:
+            i, q = pending.pop(0)
+            path = os.path.join(tmpd, "%d.json" % i)
+            p = ctx.Process(target=_child, args=(q, path))
+            p.start()
+            running[i] = (p, q, path, time.time())
+        time.sleep(0.05)
+        for i in list(running):
+            p, q, path, t0 = running[i]
+            if not p.is_alive():
+                p.join()
+                try:
+                    out[i] = json.load(open(path))
+                except Exception:
+                    out[i] = {"qname": q, "status": "error", "reason": "verifier process died (exit %s)" % p.exitcode, "obligations": [], "paths": 0, "trivial": 0, "inlined": [], "dropped": [], "cover": None, "seconds": time.time() - t0, "obl_names": []}
+                del running[i]
+            elif time.time() - t0 > deadline_s:
+                try:
+                    os.killpg(os.getpgid(p.pid), signal.SIGKILL) if False else p.kill()
+                except Exception:
+                    pass
+                p.join()
+                out[i] = {"qname": q, "status": "rejected", "reason": "deadline of %ds exceeded" % deadline_s, "obligations": [], "paths": 0, "trivial": 0, "inlined": [], "dropped": [], "cover": None, "seconds": time.time() - t0, "obl_names": []}
+                del running[i]
+    import shutil
+
+    shutil.rmtree(tmpd, ignore_errors=True)
+    return [out[i] for i in range(len(fns))]
+
+
 def known_findings():
     p = os.path.join(VERIF, "known_findings.json")
     if not os.path.exists(p):
@@ -135,12 +184,7 @@ def main():
     fns.sort()
     results = []
     if fns:
-        from concurrent.futures import ProcessPoolExecutor
-
-        ctx = mp.get_context("fork")
-        # non-daemonic workers: each function forks its own small pool to discharge its obligations
-        with ProcessPoolExecutor(max_workers=min(args.jobs, len(fns)), mp_context=ctx) as ex:
-            results = list(ex.map(_verify_one, fns))
+        results = run_functions(fns, args.jobs, float(os.environ.get("PYVC_FN_DEADLINE_S", "900" if args.tier == "quick" else "3600")))
 
     base_path = os.path.join(VERIF, "baseline", pid + ".json")
     baseline = json.load(open(base_path)).get("obligations", {}) if os.path.exists(base_path) else {}
